@@ -8,7 +8,10 @@
 (*                   rule; the last circle pass overlaps (nowait) the      *)
 (*                   first radial pass;                                    *)
 (*   "smootherTake"  SmootherTake::smoothing - black circles, white        *)
-(*                   circles (nowait), black radial lines, white radial.   *)
+(*                   circles (nowait), black radial lines, white radial;   *)
+(*   "xsmootherTake" ExtrapolatedSmootherTake - the same schedule;         *)
+(*   "residualTake"  ResidualTake::computeResidual - all circles and all   *)
+(*                   radial lines in one epoch (both loops nowait).        *)
 (* A region is a sequence of loops [nowait, tasks]; a task has an          *)
 (* iteration id and a read / write footprint over (array, node).           *)
 (* Property (design level of C11/C12): EpochDisjoint for EVERY shape -      *)
@@ -68,7 +71,17 @@ SmootherRegion ==
      [nowait |-> FALSE, tasks |-> {TakeLine(j, RadialNodes(j)) : j \in Pass(0, s.nt, 2)}],
      [nowait |-> FALSE, tasks |-> {TakeLine(j, RadialNodes(j)) : j \in Pass(1, s.nt, 2)}] >>
 
-Region == IF s.op = "residualGive" THEN ResidualRegion ELSE SmootherRegion
+(* ------------------------------ residual (take) -------------------------- *)
+\* every line task computes result on its own line from x on the line and its neighbours; no barrier at all
+TakeRes(id, S) == [id |-> id, w |-> Tag("result", S), r |-> Tag("x", LineNeighbours(S) \cup S) \cup Tag("rhs", S)]
+ResidualTakeRegion ==
+  << [nowait |-> TRUE, tasks |-> {TakeRes(i, CircleNodes(i)) : i \in 0..(s.nc - 1)}],
+     [nowait |-> TRUE, tasks |-> {TakeRes(j, RadialNodes(j)) : j \in 0..(s.nt - 1)}] >>
+
+\* ExtrapolatedSmootherTake::extrapolatedSmoothing has the schedule of SmootherTake::smoothing (it relaxes fewer unknowns per line)
+Region == CASE s.op = "residualGive" -> ResidualRegion
+            [] s.op = "residualTake" -> ResidualTakeRegion
+            [] s.op \in {"smootherTake", "xsmootherTake"} -> SmootherRegion
 
 (* -------------------------------- properties ----------------------------- *)
 RECURSIVE Epoch(_)
@@ -81,7 +94,7 @@ EpochDisjoint == \A l1 \in 1..Len(Region), l2 \in 1..Len(Region) :
 AllRadialOnce == s.op = "residualGive" =>
                    /\ UNION {RadLines(k) : k \in 0..(NumRad - 1)} = 0..(s.nt - 1)
                    /\ \A k1 \in 0..(NumRad - 1), k2 \in 0..(NumRad - 1) : k1 # k2 => RadLines(k1) \cap RadLines(k2) = {}
-AllCirclesOnce == s.op = "smootherTake" =>
+AllCirclesOnce == s.op \in {"smootherTake", "xsmootherTake"} =>
                    Pass(StartBlack, s.nc, 2) \cup Pass(StartWhite, s.nc, 2) = 0..(s.nc - 1) /\ (s.nc - 1) \in Pass(StartBlack, s.nc, 2)
 
 Init == \E op \in Ops, nr \in NrSet, nt \in NtSet, nc \in 2..9, dir \in BOOLEAN :
